@@ -280,11 +280,12 @@ pub fn tiles(bin: &str, input: &str, output: &str, dir: &str) -> Value {
 				Some(r) => {
 					let body = if r.status == 200 {
 						ok200 += 1;
-						decode_body(&r).and_then(|b| by_payload.get(&b).map(|p| *p as i64)).unwrap_or(-2)
+						if undecodable(&r) { -9 } else { decode_body(&r).and_then(|b| by_payload.get(&b).map(|p| *p as i64)).unwrap_or(-2) }
 					} else {
 						0
 					};
-					json!({"status":r.status,"ctype":r.headers.get("content-type").cloned().unwrap_or_default(),
+					// media type without parameters (";charset=..."), lower case
+					json!({"status":r.status,"ctype":r.headers.get("content-type").map(|c| c.split(';').next().unwrap_or("").trim().to_ascii_lowercase()).unwrap_or_default(),
 						"cenc":r.headers.get("content-encoding").cloned().unwrap_or_default(),"body":body})
 				}
 			};
@@ -434,6 +435,7 @@ pub fn statics(bin: &str, input: &str, output: &str, dir: &str) -> Value {
 				json!({"status":-1,"file":"","outside":0})
 			}
 			Some(r) => {
+				cenc = r.headers.get("content-encoding").cloned().unwrap_or_default();
 				let file = if r.status == 200 {
 					served += 1;
 					let body = decode_body(&r).map(|b| String::from_utf8_lossy(&b).to_string()).unwrap_or_default();
